@@ -530,6 +530,6 @@ CONTRACTS = CONTRACTS + [MetricsBlock(), FrameAudit(),
                          type("C09ScopeFactory", (_SF,), dict(name="C09/metrics:MetricsContext.scope", props=("C09",),
                                                               keep=staticmethod(lambda n: n.startswith("C09-") or n == "canary")))()]
 
-from .C02 import AsyncScope as _AsyncScope, variant as _variant      # noqa: E402
+from .C02 import AsyncScope as _AsyncScope, SyncScope as _SyncScope, variant as _variant      # noqa: E402
 
-CONTRACTS = CONTRACTS + [_variant(_AsyncScope, "C09", ("C09-",))]
+CONTRACTS = CONTRACTS + [_variant(_AsyncScope, "C09", ("C09-",)), _variant(_SyncScope, "C09", ("C09-",))]
